@@ -10,6 +10,7 @@ import (
 	"github.com/rqlite/rqlite/v10/command/chunking"
 	"github.com/rqlite/rqlite/v10/command/proto"
 	sql "github.com/rqlite/rqlite/v10/db"
+	"github.com/rqlite/rqlite/v10/internal/vhook"
 )
 
 // ExecuteQueryResponses is a slice of ExecuteQueryResponse, which detects mutations.
@@ -54,6 +55,7 @@ func (c *CommandProcessor) Process(data []byte, db *sql.SwappableDB) (*proto.Com
 		if err := command.UnmarshalSubCommand(cmd, &qr); err != nil {
 			panic(fmt.Sprintf("failed to unmarshal query subcommand: %s", err.Error()))
 		}
+		vhook.Trace(c, "cp.decoded", "cmd", cmd, "msg", &qr)
 		r, err := db.Query(qr.Request, qr.Timings)
 		return cmd, false, &fsmQueryResponse{rows: r, error: err}
 	case proto.Command_COMMAND_TYPE_EXECUTE:
@@ -61,6 +63,7 @@ func (c *CommandProcessor) Process(data []byte, db *sql.SwappableDB) (*proto.Com
 		if err := command.UnmarshalSubCommand(cmd, &er); err != nil {
 			panic(fmt.Sprintf("failed to unmarshal execute subcommand: %s", err.Error()))
 		}
+		vhook.Trace(c, "cp.decoded", "cmd", cmd, "msg", &er)
 		r, err := db.Execute(er.Request, er.Timings)
 		return cmd, true, &fsmExecuteQueryResponse{results: r, error: err}
 	case proto.Command_COMMAND_TYPE_EXECUTE_QUERY:
@@ -68,6 +71,7 @@ func (c *CommandProcessor) Process(data []byte, db *sql.SwappableDB) (*proto.Com
 		if err := command.UnmarshalSubCommand(cmd, &eqr); err != nil {
 			panic(fmt.Sprintf("failed to unmarshal execute-query subcommand: %s", err.Error()))
 		}
+		vhook.Trace(c, "cp.decoded", "cmd", cmd, "msg", &eqr)
 		r, err := db.Request(eqr.Request, eqr.Timings)
 		return cmd, ExecuteQueryResponses(r).Mutation(), &fsmExecuteQueryResponse{results: r, error: err}
 	case proto.Command_COMMAND_TYPE_LOAD:
@@ -75,6 +79,7 @@ func (c *CommandProcessor) Process(data []byte, db *sql.SwappableDB) (*proto.Com
 		if err := command.UnmarshalLoadRequest(cmd.SubCommand, &lr); err != nil {
 			panic(fmt.Sprintf("failed to unmarshal load subcommand: %s", err.Error()))
 		}
+		vhook.Trace(c, "cp.decoded", "cmd", cmd, "msg", &lr)
 
 		// create a scratch file in the same directory as s.db.Path()
 		fd, err := createTemp(filepath.Dir(db.Path()), "rqlite-load-")
@@ -99,6 +104,7 @@ func (c *CommandProcessor) Process(data []byte, db *sql.SwappableDB) (*proto.Com
 		if err := command.UnmarshalLoadChunkRequest(cmd.SubCommand, &lcr); err != nil {
 			panic(fmt.Sprintf("failed to unmarshal load-chunk subcommand: %s", err.Error()))
 		}
+		vhook.Trace(c, "cp.decoded", "cmd", cmd, "msg", &lcr)
 
 		dec, err := c.decMgmr.Get(lcr.StreamId)
 		if err != nil {
